@@ -325,7 +325,17 @@ func registerNd(e *Engine) {
 		// arbitrary *big.Int with |v| < 2^128
 		name := x.concreteStr(args[0], "nd name")
 		c := x.newBig("nd.BigInt")
-		mag := x.ctx.ZExt(x.ctx.Concat(x.ndVar(name+".hi", 64), x.ndVar(name+".lo", 64)), bigW-128)
+		hi := x.ndVar(name+".hi", 64)
+		if x.h != nil && x.h.BigBits > 0 && x.h.BigBits < 128 {
+			// reduced magnitude range (quick tier): |v| < 2^BigBits
+			k := x.h.BigBits - 64
+			lim := x.ctx.ULt(hi, x.ctx.BV(uint64(1)<<uint(k), 64))
+			if !x.feasible(lim) {
+				panic(pathEnd{Kind: "assume", Msg: "big range", Site: x.site()})
+			}
+			x.pc = append(x.pc, lim)
+		}
+		mag := x.ctx.ZExt(x.ctx.Concat(hi, x.ndVar(name+".lo", 64)), bigW-128)
 		x.bigSet(c, x.ndVar(name+".neg", 0), mag)
 		return c
 	}
@@ -336,6 +346,10 @@ func registerNd(e *Engine) {
 	}
 	I[p+"Epoch"] = func(x *Exec, caller *frame, fn *ssa.Function, args []Value) Value {
 		x.epoch++
+		return nil
+	}
+	I[p+"BigBits"] = func(x *Exec, caller *frame, fn *ssa.Function, args []Value) Value {
+		x.h.BigBits = x.concreteInt(args[0], "BigBits")
 		return nil
 	}
 	I[p+"AllocBound"] = func(x *Exec, caller *frame, fn *ssa.Function, args []Value) Value {
